@@ -64,12 +64,39 @@ def dec(out):
     return recs
 
 
+def gen_nrs(rng, n):
+    """context NR (= FNR) values the records carry.  A verb downstream of filter / tac / sort / head -g ... receives records
+    whose NR is NOT their arrival index: non-contiguous, out of order, repeated.  None = the arrival index."""
+    m = rng.random()
+    if m < 0.3 or n == 0:
+        return None
+    if m < 0.5:                                   # survivors of an upstream filter
+        out, c = [], 0
+        for _ in range(n):
+            c += rng.randint(1, 4)
+            out.append(c)
+        return out
+    if m < 0.65:                                  # after tac
+        return list(range(n, 0, -1)) if rng.random() < 0.5 else [x + 7 for x in range(n, 0, -1)]
+    if m < 0.85:                                  # after sort / shuffle / group-by
+        out = list(range(1, n + 1))
+        rng.shuffle(out)
+        return out
+    if m < 0.95:                                  # repeated (bootstrap, fill-down style copies)
+        return [rng.randint(1, max(n // 2, 1)) for _ in range(n)]
+    return [1000000 + i for i in range(n)]
+
+
 def run_verbs(ctx, reqs, seed=7):
-    """reqs: list of (args, recs).  One implrun process runs them all in-process (real ParseCLI + Transform).
+    """reqs: list of (args, recs) or (args, recs, nrs).  One implrun process runs them all in-process (real ParseCLI + Transform).
     Returns list of (status, out_records, err) with status 0 / 1 (error) / 'panic'."""
     lines = []
-    for args, recs in reqs:
-        lines.append(json.dumps({"seed": seed, "args": args, "recs": [[[k.decode("latin1"), v.decode("latin1")] for k, v in r] for r in recs]}))
+    for req in reqs:
+        args, recs = req[0], req[1]
+        d = {"seed": seed, "args": args, "recs": [[[k.decode("latin1"), v.decode("latin1")] for k, v in r] for r in recs]}
+        if len(req) > 2 and req[2] is not None:
+            d["nrs"] = req[2]              # context NR/FNR carried by each record (default: arrival index)
+        lines.append(json.dumps(d))
     rc, out, err = sh([ctx.implrun(), "verbs"], inp="\n".join(lines) + "\n", timeout=900)
     outs = out.split("\n")[:len(reqs)]
     if rc != 0 or len(outs) != len(reqs):
@@ -405,7 +432,9 @@ def run(ctx):
     ctx.cov["rule"] = ("seeded streams of 0..10 (quick) / 0..24 (thorough) heterogeneous records (duplicates, empties, values with ',' and '=', "
                        "missing group-by fields) x verb options (head/tail counts 0,1,2,N-1,N,N+1 with '-', '+' forms, group-by lists incl. a missing "
                        "field, decimate -b/-e, grep -i/-v/-a literal patterns, having-fields 6 modes, cat -n/-N/-g, filter/filter -x/put filter over "
-                       "19 expressions incl. absent and non-boolean); deterministic verbs: model output = mlr output (vm_compute); shuffle/bootstrap/"
+                       "19 expressions incl. absent and non-boolean); about 2/3 of the in-process cases carry context NR/FNR values that are NOT the arrival index "
+                       "(gaps, reversed, shuffled, repeated, offset) and a sample runs downstream of tac / filter / head -g / sort / tail / group-by in a "
+                       "then-chain on the command line; deterministic verbs: model output = mlr output (vm_compute); shuffle/bootstrap/"
                        "sample: verified checkers on mlr output; a case is non-trivial when (verb, options, input) is distinct")
     ctx.cov["trusted_base"] = ["Coq 8.16.1 kernel + vm_compute", "no axioms (Print Assumptions: closed under the global context)",
                                "python harness (DKVP encode/decode with IFS ';' IPS ':', case rendering)",
@@ -416,23 +445,32 @@ def run(ctx):
     ok, why = check_props(ctx, "C11/Props.v", ["C11/Harness.vo", "C11/Proofs.vo", "C11/Proofs2.vo", "C11/CheckerProofs.vo", "C11/SampleProofs.vo"])
     cases = gen_cases(ctx)
     fcases = gen_filter_cases(ctx)
+    case_nrs = [gen_nrs(ctx.rng, len(c[4])) for c in cases]
+    fcase_nrs = [gen_nrs(ctx.rng, len(inp)) for _, inp in fcases]
+    for nr in case_nrs:
+        ctx.dist("context NR: " + ("arrival index" if nr is None else "not the arrival index"))
     with ctx.timed("impl"):
-        obs = run_verbs(ctx, [(c[3], c[4]) for c in cases])
-        freqs = [filter_requests(e, inp) for e, inp in fcases]
+        obs = run_verbs(ctx, [(c[3], c[4], nr) for c, nr in zip(cases, case_nrs)])
+        freqs = [[(a, r, nr) for a, r in filter_requests(e, inp)] for (e, inp), nr in zip(fcases, fcase_nrs)]
         flat = run_verbs(ctx, [r for rs in freqs for r in rs])
         fobs = [filter_results(e, inp, flat[5 * i:5 * i + 5]) for i, (e, inp) in enumerate(fcases)]
         cli_tie(ctx, cases, obs)
-    terms, meta, oracle_bad = [], [], []
-    for (verb, zs, ss, args, inp), (st, out, err) in zip(cases, obs):
-        ctx.count((verb, zs, ss, inp))
+    terms, meta, oracle_bad, meta_nrs = [], [], [], {}
+    for (verb, zs, ss, args, inp), (st, out, err), nr in zip(cases, obs, case_nrs):
+        ctx.count((verb, zs, ss, inp, nr))
         if st != 0:
-            ctx.violation({"broken": "mlr-failed", "argv": args, "input": show(inp), "status": st, "stderr": err.decode("latin1")[-600:]})
+            ctx.violation({"broken": "mlr-failed", "argv": args, "input": show(inp), "status": st, "stderr": err.decode("latin1")[-600:], "context_nr": nr})
             continue
         terms.append(term(verb, zs, ss, inp, out))
         meta.append((verb, zs, ss, args, inp, out))
+        meta_nrs[len(meta) - 1] = nr
         v = oracle(ctx, verb, zs, ss, args, inp, out)
         if v:
+            if nr is not None:
+                v = dict(v, context_nr=nr, how="in-process driver (implrun verbs): the records carry these context NR/FNR values, as downstream of "
+                                               "filter / tac / sort / head -g in a then-chain")
             oracle_bad.append(v)
+    chain_cases(ctx, terms, meta, oracle_bad)
     # filter family
     for (e, inp), (r, bad) in zip(fcases, fobs):
         if bad:
@@ -486,6 +524,8 @@ def run(ctx):
     for i in bad[:40]:
         verb, zs, ss, args, inp, out = meta[i]
         v = oracle(ctx, verb, zs, ss, args, inp, out) if verb not in (4, 40) else None
+        if v and meta_nrs.get(i) is not None:
+            v = dict(v, context_nr=meta_nrs[i], how="in-process driver (implrun verbs): the records carry these context NR/FNR values")
         if v:
             reported += 1 if ctx.violation(dict(v, broken="correspondence C11.Harness.chk")) else 0
         else:
@@ -524,6 +564,57 @@ def cli_tie(ctx, cases, obs):
     ctx.cov["cli_tie"] = {"cases": len(idx), "disagreements": bad}
 
 
+UPSTREAMS = [["tac"], ["filter", "NR % 2 == 1"], ["filter", "-x", "NR % 3 == 1"], ["head", "-n", "1", "-g", "a", "then", "tac"],
+             ["sort", "-r", "a"], ["tail", "-n", "4"], ["group-by", "b"]]
+
+
+def chain_cases(ctx, terms, meta, oracle_bad):
+    """every selecting verb downstream of a verb that drops / reorders records, through the real command line:
+    `mlr UP then VERB` must equal VERB applied to the output of `mlr UP` (the model gets that output as its input)"""
+    rng = ctx.rng
+    n = int((26 if ctx.tier == "quick" else 400) * SCALE)
+    sel = []
+    for _ in range(n):
+        inp = gen_stream(rng, 9)
+        while len(inp) < 4:
+            inp = gen_stream(rng, 9)
+        k = ks_for(rng, len(inp) // 2)
+        fs = pick_fs(rng)
+        g = b",".join(fs).decode()
+        verb, zs, ss, args = rng.choice([
+            (2, [k + 1, 1], [[]], ["tail", "-n", "+" + str(k + 1)]),
+            (2, [k + 1, 1], [[]], ["tail", "-n", "+" + str(k + 1)]),
+            (2, [k + 1, 1], [fs], ["tail", "-n", "+" + str(k + 1), "-g", g]),
+            (2, [k, 0], [[]], ["tail", "-n", str(k)]),
+            (1, [k, 0], [[]], ["head", "-n", str(k)]),
+            (1, [k, 1], [fs], ["head", "-n", str(k), "-g", g]),
+            (1, [-k - 1, 0], [[]], ["head", "-n", str(-k - 1)]),
+            (3, [2, 0, 0], [[]], ["decimate", "-n", "2"]),
+            (3, [2, 1, 0], [fs], ["decimate", "-n", "2", "-b", "-g", g]),
+            (13, [1, 0], [[b"n"], []], ["cat", "-n"]),
+            (13, [1, 1], [[b"n"], fs], ["cat", "-n", "-g", g]),
+            (7, [], [], ["tac"]), (8, [], [fs], ["group-by", g]), (12, [], [], ["uniq", "-a"]), (11, [], [], ["skip-trivial-records"]),
+        ])
+        sel.append((rng.choice(UPSTREAMS), verb, zs, ss, args, inp))
+    with ThreadPoolExecutor(PAR) as ex:
+        xs = list(ex.map(lambda c: mlr(ctx, c[0], c[5]), sel))
+        ys = list(ex.map(lambda c: mlr(ctx, c[0] + ["then"] + c[4], c[5]), sel))
+    for (up, verb, zs, ss, args, inp), (sx, x, ex_), (sy, y, ey) in zip(sel, xs, ys):
+        ctx.count(("chain", up, args, inp))
+        ctx.dist("then-chain downstream of " + up[0])
+        if sx != 0 or sy != 0:
+            ctx.violation({"broken": "mlr-failed", "argv": ["mlr"] + IOFLAGS + up + ["then"] + args, "input": show(inp), "status": [sx, sy],
+                           "stderr": (ex_ + ey).decode("latin1")[-500:]})
+            continue
+        terms.append(term(verb, zs, ss, x, y))
+        meta.append((verb, zs, ss, up + ["then"] + args, x, y))
+        v = oracle(ctx, verb, zs, ss, args, x, y)
+        if v:
+            oracle_bad.append(dict(v, argv=["mlr"] + IOFLAGS + up + ["then"] + args, input=show(inp), upstream_output=show(x), upstream=up,
+                                   law=v.get("law", "") + " (downstream of `" + " ".join(up) + "`: the verb's input is upstream_output)"))
+    ctx.cov["then_chains"] = {"cases": len(sel)}
+
+
 def count_identities(ctx, oracle_bad):
     """|head -n k| + |tail -n +(k+1)| = N ; head ++ tail = input ; tac twice ; group sizes sum"""
     rng = ctx.rng
@@ -534,7 +625,8 @@ def count_identities(ctx, oracle_bad):
         k = ks_for(rng, len(inp))
         fs = pick_fs(rng)
         trip.append((inp, k, fs))
-        reqs += [(["head", "-n", str(k)], inp), (["tail", "-n", "+" + str(k + 1)], inp), (["tac"], inp), (["group-by", b",".join(fs).decode()], inp)]
+        nr = gen_nrs(rng, len(inp))
+        reqs += [(["head", "-n", str(k)], inp, nr), (["tail", "-n", "+" + str(k + 1)], inp, nr), (["tac"], inp, nr), (["group-by", b",".join(fs).decode()], inp, nr)]
     res = run_verbs(ctx, reqs)
     tacs = run_verbs(ctx, [(["tac"], res[4 * i + 2][1]) for i in range(n)])
     for i, (inp, k, fs) in enumerate(trip):
@@ -571,6 +663,21 @@ def replay(ctx, path):
         ctx.violation(dict(obj, replayed=True), found_input=obj.get("found_input", False))
         return
     inp = [[tuple(x.encode("latin1") for x in f.split(":", 1)) for f in line.split(";")] if line else [] for line in obj["input"]]
+    if "case" in obj and (obj.get("context_nr") is not None or "upstream" in obj):
+        c = obj["case"]
+        ss = [[x.encode("latin1") for x in y] for y in c["ss"]]
+        if "upstream" in obj:
+            _, x, _ = mlr(ctx, obj["upstream"], inp)
+            st, y, err = mlr(ctx, obj["upstream"] + ["then"] + c["args"], inp)
+        else:
+            x = inp
+            st, y, err = run_verbs(ctx, [(c["args"], inp, obj["context_nr"])])[0]
+        print("replay: %s\n verb input=%s\n observed=%s" % (obj.get("how") or argv, show(x), show(y)))
+        ctx.count(("replay", argv, obj["input"]))
+        v = oracle(ctx, c["verb"], c["zs"], ss, c["args"], x, y) if st == 0 else {"law": "run failed", "stderr": err.decode("latin1")[-300:]}
+        if v:
+            ctx.violation(dict(obj, replayed=True, observed=show(y)))
+        return
     st, out, err = mlr_run(ctx, ["--seed", "7"] + argv[1:], enc(inp), timeout=30)
     got = show(dec(out))
     print("replay: argv=%s\n input=%s\n observed=%s\n previously=%s" % (argv, obj["input"], got, obj.get("observed")))
